@@ -193,7 +193,8 @@ class C01(Check):
     def _module(self, stages):
         _N[0] += 1
         fn = f"<c01mod{_N[0]}>"
-        text = MODULE_HEAD + "def chain(src):\n    return (\n        src\n" + "".join(
+        # W is also a variable of the enclosing function (it hides the module global W = 1, as in Python)
+        text = MODULE_HEAD + "def chain(src):\n    W = 9\n    return (\n        src\n" + "".join(
             f"        .{op}(lambda e: {body})\n" for op, body in stages) + "    )\n"
         linecache.cache[fn] = (len(text), None, text.splitlines(True), fn)
         g = {"len": len, "list": list, "abs": abs}
